@@ -960,7 +960,9 @@ func (g *vgen) structVal(v *TVal, depth int) {
 	}
 }
 
-var unknownJSONs = []string{`1`, `"s"`, `null`, `true`, `{}`, `[]`, `{"a":[1,2,{"b":"}"}]}`, `[[],[[]],"]"]`, `-1.5e3`, `"\"\\"`, `{"x":{"y":{"z":null}}}`}
+var unknownJSONs = []string{`1`, `"s"`, `null`, `true`, `{}`, `[]`, `{"a":[1,2,{"b":"}"}]}`, `[[],[[]],"]"]`, `-1.5e3`, `"\"\\"`, `{"x":{"y":{"z":null}}}`,
+	// strings that end in an escaped backslash, inside containers (the closing quote is not escaped)
+	`{"dir":"C:\\tmp\\","n":1}`, `["x\\","y"]`, `{"k\\":"v\\\\","z":["\\"]}`}
 
 // ---- reference Thrift binary encoder (from the Apache spec)
 
